@@ -223,7 +223,8 @@ class StretchyTreeMatcher:
         if is_generic:
             return self.deep_find_match_generic(ins_node, std_node, check_meta, use_previous=use_previous)
         else:  # this means that the node is clearly commutative
-            return self.deep_find_match_binflex(ins_node, std_node, False, use_previous=use_previous)
+            return self.deep_find_match_binflex(ins_node, std_node, False, use_previous=use_previous,
+                                                check_operand_meta=check_meta)
 
     # noinspection PyMethodMayBeStatic
     def binflex_helper(self, case_left, case_right, new_mappings, base_mappings, use_previous=None):
@@ -249,7 +250,23 @@ class StretchyTreeMatcher:
                     if not both.has_conflicts():
                         new_mappings.append(both)
 
-    def deep_find_match_binflex(self, ins_node, std_node, check_meta=False, use_previous=None):
+    def _find_operand_match(self, ins_operand, std_operand, check_meta):
+        """
+        The operands of a commutative operation may be swapped, so the side
+        that an operand is on does not count - but whatever is below it is
+        matched field by field as anywhere else (a callee is not an argument).
+        """
+        if not check_meta:
+            return self.deep_find_match(ins_operand, std_operand, False)
+        original_field = ins_operand.field
+        ins_operand.field = _NONE_FIELD
+        try:
+            return self.deep_find_match(ins_operand, std_operand, True)
+        finally:
+            ins_operand.field = original_field
+
+    def deep_find_match_binflex(self, ins_node, std_node, check_meta=False, use_previous=None,
+                                check_operand_meta=False):
         """
 
         Args:
@@ -276,12 +293,12 @@ class StretchyTreeMatcher:
             std_right = std_node.children[2]  # student right ast node
             new_mappings = []
             # case 1: ins_left->std_left and ins_right->std_right
-            case_left = self.deep_find_match(ins_left, std_left, False)
-            case_right = self.deep_find_match(ins_right, std_right, False)
+            case_left = self._find_operand_match(ins_left, std_left, check_operand_meta)
+            case_right = self._find_operand_match(ins_right, std_right, check_operand_meta)
             self.binflex_helper(case_left, case_right, new_mappings, base_mappings, use_previous=use_previous)
             # case 2: ins_left->std_right and ins_right->std_left
-            case_left = self.deep_find_match(ins_left, std_right, False)
-            case_right = self.deep_find_match(ins_right, std_left, False)
+            case_left = self._find_operand_match(ins_left, std_right, check_operand_meta)
+            case_right = self._find_operand_match(ins_right, std_left, check_operand_meta)
             self.binflex_helper(case_left, case_right, new_mappings, base_mappings, use_previous=use_previous)
             if len(new_mappings) == 0:
                 return []
